@@ -542,6 +542,51 @@ def indent(repo):
                     "line's leading whitespace", TOK, ded.lineno, f.name)
         if not ded.orelse or not any(isinstance(x, ast.Return) for st in ded.orelse for x in ast.walk(st)):
             res.add(f"{TOK}|{f.name}|dedent-error", "an indentation that matches no open level is no longer an error", TOK, ded.lineno, f.name)
+    # what counts as "leading whitespace": the prefix whose changes Indent/Dedent mirror must be made of exactly the
+    # characters the token table skips as blanks (the symbol-less pattern, `\\s+`); a narrower strip (`lstrip(" \\t")`)
+    # lets a form feed or U+00A0 at the start of a line be skipped as a gap without being indentation
+    res.instances += 1
+    lead_names = {ast.unparse(pu.args[0]) for pu in pushes if isinstance(pu.args[0], ast.Name)}
+    lead_def = None
+    for n in ast.walk(f.node):
+        if isinstance(n, ast.Assign) and len(n.targets) == 1 and isinstance(n.targets[0], ast.Name) and n.targets[0].id in lead_names:
+            lead_def = n
+    if lead_def is None:
+        raise AnalysisError("tokenizer: the definition of the leading-whitespace prefix pushed on indent_stack was not found")
+    _, regs = G.tokenizer_tables(repo)
+    skips = [re.compile(p) for p, sym, _ in regs if not sym]
+    cands = [chr(i) for i in range(0x3100)] + ["\ufeff"]
+    w_gap = {c for c in cands if any(rx.fullmatch(c) for rx in skips)}
+    strips = [c for c in ast.walk(lead_def.value) if isinstance(c, ast.Call) and isinstance(c.func, ast.Attribute)
+              and c.func.attr in ("lstrip", "strip")]
+    matches = [c for c in ast.walk(lead_def.value) if isinstance(c, ast.Call) and call_name(c) in ("re.match", "re.compile")
+               and c.args and isinstance(c.args[0], ast.Constant) and isinstance(c.args[0].value, str)]
+    w_lead = None
+    if len(strips) == 1 and not matches:
+        c = strips[0]
+        if not c.args and not c.keywords:
+            w_lead = {x for x in cands if x.isspace()}
+        elif len(c.args) == 1 and isinstance(c.args[0], ast.Constant) and isinstance(c.args[0].value, str):
+            w_lead = set(c.args[0].value)
+        elif len(c.args) == 1 and isinstance(c.args[0], ast.Constant) and c.args[0].value is None:
+            w_lead = {x for x in cands if x.isspace()}
+    elif len(matches) == 1 and not strips:
+        try:
+            rx = re.compile(matches[0].args[0].value)
+            w_lead = {x for x in cands if (mm := rx.match(x)) and mm.group(0) == x}
+        except re.error:
+            w_lead = None
+    if w_lead is None:
+        raise AnalysisError(f"tokenizer: `{ast.unparse(lead_def)[:90]}` is not a recognised way to take the leading whitespace")
+    if w_lead != w_gap:
+        only_gap = sorted(w_gap - w_lead)
+        only_lead = sorted(w_lead - w_gap)
+        res.add(f"{TOK}|{f.name}|leading-charset", f"`{ast.unparse(lead_def)[:100]}`: the indentation prefix is made of "
+                f"{len(w_lead)} characters, the gap pattern skips {len(w_gap)}: "
+                + (f"{[hex(ord(c)) for c in only_gap[:6]]} at the start of a line are skipped as blanks but are not indentation "
+                   "(Indent/Dedent no longer mirror the leading whitespace)" if only_gap else
+                   f"{[hex(ord(c)) for c in only_lead[:6]]} are indentation but no token pattern skips them"),
+                TOK, lead_def.lineno, f.name)
     res.samples = [f"{f.fq}: {total}"]
     res.analysed = [TOK]
     return res
